@@ -90,7 +90,7 @@ impl Ctx {
             trace_no: 0,
             next_id: 1,
             variants: Vec::new(),
-            max_variants_per_step: if profile == "deep" { 64 } else { 6 },
+            max_variants_per_step: match profile { "deep" => 64, "std" => 0, "drops" => 8, _ => 6 },
             op_hist: BTreeMap::new(),
             exit_hist: BTreeMap::new(),
             kind_hist: BTreeMap::new(),
@@ -118,7 +118,7 @@ impl Ctx {
     pub fn gen_spec(&mut self, nops: usize) -> Spec {
         self.next_id = 1;
         let kind = *self.rng.pick(&[Kind::Boxed, Kind::Fixed, Kind::Fixed, Kind::Bump, Kind::Bump, Kind::Mut, Kind::Rev]);
-        let zst = self.rng.chance(1, 6);
+        let zst = self.rng.chance(1, 4);
         let settings = self.rng.below(4) as u8;
         let len = match self.rng.below(10) {
             0 => 0,
@@ -156,8 +156,19 @@ impl Ctx {
         if kind != Kind::Boxed {
             choices.extend_from_slice(&[7, 7, 7, 8, 8, 9, 9, 10, 10, 15, 15]);
         }
+        // oracle-only operations
+        choices.extend_from_slice(&[22]);
+        if kind != Kind::Boxed {
+            choices.extend_from_slice(&[16, 18, 19, 20, 21]);
+        }
+        if kind == Kind::Bump || kind == Kind::Mut {
+            choices.push(17);
+        }
+        if kind == Kind::Bump {
+            choices.extend_from_slice(&[23, 24, 24]);
+        }
         if kind == Kind::Rev {
-            choices = vec![2, 3, 4, 4, 5, 5, 6, 6, 7, 7, 7, 8, 8, 8, 9, 9, 10, 10, 13, 15, 15];
+            choices = vec![2, 3, 4, 4, 5, 5, 6, 6, 7, 7, 7, 8, 8, 8, 9, 9, 10, 10, 13, 15, 15, 16, 17, 20, 21];
         }
         let c = *self.rng.pick(&choices);
         let mut oracle = Vec::new();
@@ -238,19 +249,86 @@ impl Ctx {
                 }
                 Op::MapInPlace
             }
-            _ => {
+            15 => {
                 let n = self.rng.below(5) as usize;
                 Op::Append((0..n).map(|_| self.fresh()).collect())
+            }
+            16 => Op::Reserve(*self.rng.pick(&[0usize, 1, 2, 3, 5, 9])),
+            17 => Op::ReserveExact(*self.rng.pick(&[0usize, 1, 2, 3, 5, 9])),
+            18 => Op::PopIf.also(|| {
+                if len > 0 {
+                    oracle.push(Oc::Ret(u64::from(self.rng.chance(1, 2))));
+                }
+            }),
+            19 => {
+                let (s, e) = match self.rng.below(10) {
+                    0 => (0, len + 1),
+                    1 => (len.min(1) + 1, len.min(1)),
+                    _ => {
+                        let a = self.rng.below(len as u64 + 1) as usize;
+                        let b = self.rng.below(len as u64 + 1) as usize;
+                        (a.min(b), a.max(b).min(a.min(b) + 4))
+                    }
+                };
+                if s <= e && e <= len {
+                    for _ in s..e {
+                        let id = self.fresh();
+                        oracle.push(Oc::Ret(id));
+                    }
+                }
+                Op::ExtendWithinClone(s, e)
+            }
+            20 => {
+                let n = self.rng.below(len as u64 + 4) as usize;
+                for _ in 0..n.saturating_sub(len) {
+                    let id = self.fresh();
+                    oracle.push(Oc::Ret(id));
+                }
+                Op::ResizeWith(n)
+            }
+            21 => Op::PopIf.also(|| {
+                if len > 0 {
+                    oracle.push(Oc::Ret(u64::from(self.rng.chance(1, 2))));
+                }
+            }),
+            22 => {
+                // two key calls per comparison; few distinct keys so that neighbours collide
+                for _ in 0..2 * len.saturating_sub(1) {
+                    oracle.push(Oc::Ret(self.rng.below(2)));
+                }
+                Op::DedupByKey
+            }
+            23 => Op::ShrinkToFit,
+            _ => {
+                let (s, e) = match self.rng.below(10) {
+                    0 => (0, len + 1),
+                    1 => (len.min(1) + 1, len.min(1)),
+                    _ => {
+                        let a = self.rng.below(len as u64 + 1) as usize;
+                        let b = self.rng.below(len as u64 + 1) as usize;
+                        (a.min(b), a.max(b))
+                    }
+                };
+                let n = self.rng.below(5) as usize;
+                let ids: Vec<u64> = (0..n).map(|_| self.fresh()).collect();
+                let pulls = self.rng.below(e.saturating_sub(s) as u64 + 2) as usize;
+                Op::Splice(s, e, ids, pulls)
             }
         };
         let _ = cap;
         // faults of the primary run: a panicking callback / a panicking Drop now and then
-        if !oracle.is_empty() && self.rng.chance(1, 8) {
+        // profile `std`: clean runs only (compared with std::vec::Vec); `drops` / `deep`: more faults
+        let (pp, pb) = match self.profile.as_str() {
+            "std" => (0, 0),
+            "drops" | "deep" => (5, 5),
+            _ => (3, 3),
+        };
+        if !oracle.is_empty() && self.rng.chance(pp, 24) {
             let k = self.rng.below(oracle.len() as u64) as usize;
             oracle[k] = Oc::Panic;
         }
         let mut bombs = Vec::new();
-        if !ids.is_empty() && self.rng.chance(1, 8) {
+        if !ids.is_empty() && self.rng.chance(pb, 24) {
             bombs.push(*self.rng.pick(ids));
         }
         Step { op, oracle, bombs }
@@ -360,7 +438,24 @@ impl Ctx {
                 csv(&step.bombs),
                 if post_cap == usize::MAX { 0 } else { post_cap }
             );
-            if !zst && gone {
+            if !zst && (!step.op.modelled() || (spec.kind == Kind::Rev && matches!(step.op, Op::ResizeWith(_) | Op::PopIf))) {
+                // checked by the oracles only; the model is re-synchronised with what the vector holds now
+                let _ = writeln!(
+                    self.out,
+                    "x{optext} => ids={} len={} cap={} drops={} esc={} exit={} used={}",
+                    csv(&post),
+                    post_len,
+                    post_cap,
+                    csv(&drops),
+                    csv(&esc),
+                    exit,
+                    used_n
+                );
+                if !gone {
+                    let _ = writeln!(self.out, "new {h} {} cap={} ids={} addr={}", spec.kind.tok(), post_cap, csv(&post), post_addr);
+                }
+                self.count("oracle-only-ops");
+            } else if !zst && gone {
                 let _ = writeln!(self.out, "{optext} => gone drops={} esc={} exit={} used={}", csv(&drops), csv(&esc), exit, used_n);
             } else if !zst {
                 let _ = writeln!(
@@ -444,10 +539,24 @@ impl Ctx {
                     }
                 }
                 Kind::Bump | Kind::Mut | Kind::Rev => {
-                    if fits && !zst && !gone && !consuming && (post_cap != pre_cap || (post_addr != pre_addr && pre_cap != 0)) {
+                    if fits && !zst && !gone && !consuming && step.op != Op::ShrinkToFit && (post_cap != pre_cap || (post_addr != pre_addr && pre_cap != 0)) {
                         self.oracle("C08", format!("{} `{optext}`: reallocated although len {pre_len} + {additional} <= capacity {pre_cap} (capacity {pre_cap} -> {post_cap}, address {pre_addr:#x} -> {:#x})", spec.kind.tok(), post_addr));
                     }
                 }
+            }
+            match &step.op {
+                Op::Reserve(n) | Op::ReserveExact(n) if exit == "ret" && !zst => {
+                    self.count("reserve-promise-checked");
+                    if post_cap < pre_len + n {
+                        self.oracle("C08", format!("{} `{optext}` from len={pre_len} cap={pre_cap}: capacity {post_cap} afterwards is less than len + additional", spec.kind.tok()));
+                    }
+                }
+                Op::ShrinkToFit if !zst => {
+                    if post_cap > pre_cap || post_cap < post_len {
+                        self.oracle("C08", format!("bump `{optext}` from len={pre_len} cap={pre_cap}: capacity {post_cap} afterwards", ));
+                    }
+                }
+                _ => {}
             }
             if zst && !gone && spec.kind != Kind::Boxed && post_cap != usize::MAX {
                 self.oracle("C08", format!("{} of a zero-sized type `{optext}`: capacity {post_cap}, expected usize::MAX", spec.kind.tok()));
